@@ -54,6 +54,7 @@ source_st = st.fixed_dictionaries({
 })
 
 nf_case = st.fixed_dictionaries({
+    "rep": skyimg.rep_strategy,      # how the image is stored (CD matrix, degenerate axes, BSCALE/BZERO)
     "hdr": header_st, "src": source_st,
     "docov": st.sampled_from([True, False]), "bkg": st.sampled_from([None, None, 0.0, 3.5, -20.0]),
     "bitpix": st.sampled_from([-64, -64, -32]),
@@ -61,6 +62,7 @@ nf_case = st.fixed_dictionaries({
 })
 
 noisy_case = st.fixed_dictionaries({
+    "rep": skyimg.rep_strategy,      # how the image is stored (CD matrix, degenerate axes, BSCALE/BZERO)
     "hdr": header_st, "src": source_st,
     "docov": st.sampled_from([True, True, False]), "internal": st.sampled_from([False, False, True]),
     "cores": st.sampled_from([1, 2, 4]), "seed": st.integers(0, 2 ** 31 - 1),
@@ -170,7 +172,7 @@ def check_noise_free(c):
     try:
         path = os.path.join(d, "im.fits")
         single = c.get("bitpix", -64) == -32
-        skyimg.write_fits(path, img + (bkg or 0.0), B["hdr"], dtype=np.float32 if single else np.float64)
+        skyimg.write_fits(path, img + (bkg or 0.0), B["hdr"], dtype=np.float32 if single else np.float64, rep=c.get("rep"))
         comps = run_finder(path, B["rms"], bkg if bkg is not None else None, c["docov"])
         cli_rows = None
         if c.get("cli"):
@@ -248,7 +250,7 @@ def one_noisy_run(c, B, seed, d):
     else:
         noise = rng.normal(size=B["shape"]) * sigma
     path = os.path.join(d, "im_%d.fits" % (seed % 100000))
-    skyimg.write_fits(path, img + noise, B["hdr"])
+    skyimg.write_fits(path, img + noise, B["hdr"], rep=c.get("rep"))
     if c["internal"]:
         comps = run_finder(path, None, None, c["docov"], cores=c["cores"])
     else:
